@@ -215,6 +215,22 @@ def _normalize(self):
                     if repl is None:
                         raise AnalysisError(RULE, "%s: replacement of %s is not a literal" % (fkey, c.func.value.id))
                     out.append((regex.compile(pat, _flags(fl)), repl, c.func.value.id))
+                elif fn in ("re.sub", "regex.sub") and len(c.args) == 3 and ast.unparse(c.args[2]) == p:
+                    pat, repl = fold_str(c.args[0], f, ix), fold_str(c.args[1], f, ix)
+                    if pat is None or repl is None:
+                        raise AnalysisError(RULE, "%s: pattern/replacement of %s is not a literal" % (fkey, ast.unparse(c)[:60]))
+                    fl = ""
+                    for k in c.keywords:
+                        if k.arg == "flags":
+                            fl = ast.unparse(k.value)
+                        else:
+                            raise AnalysisError(RULE, "%s: unrecognised rewrite %s" % (fkey, ast.unparse(s)[:60]))
+                    out.append((regex.compile(pat, _flags(fl)), repl, "inline:" + pat[:20]))
+                elif fn == p + ".replace" and len(c.args) == 2 and not c.keywords:
+                    a, b = fold_str(c.args[0], f, ix), fold_str(c.args[1], f, ix)
+                    if a is None or b is None:
+                        raise AnalysisError(RULE, "%s: arguments of %s are not literals" % (fkey, ast.unparse(c)[:60]))
+                    out.append((regex.compile(regex.escape(a)), b.replace("\\", "\\\\"), "replace:" + a[:20]))
                 elif fn == "sanitize_spaces" and [ast.unparse(a) for a in c.args] == [p]:
                     out += ops_of("dateparser.date:sanitize_spaces")
                 elif fn == p + ".strip" and not c.args:
